@@ -49,6 +49,11 @@ FIRST = {
     'z09-C17': 'caught', 'z10-C19': 'caught',
     'z04-C11': 'missed -> S1 payload-only-from-state',
     'z08-C16': 'missed -> new rule I5 (hand-driven iterator compared with end before every dereference)',
+    'a01-C01': 'caught', 'a05-C06': 'caught', 'a07-C10': 'caught', 'a10-C20': 'caught',
+    'a02-C02': 'missed -> guard-aware reverse events (K4) and T2 flag-honoured (an extra flag of the key sort is applied after every stage)',
+    'a03-C03': 'missed (same change as a02, written independently) -> T2 flag-honoured',
+    'a06-C09': 'missed -> P1 no-shortcut-round-the-kind-switch',
+    'a09-C18': 'missed -> new rule T8 (field listings read the class, never the instance)',
     'z07-C15': 'analysis error in C13 only (restore moved into a local helper) -> D1 looks through the helper, the statement CFG lets exceptions no handler matches escape `except Exception`, D1 added to C15',
 }
 
